@@ -7,6 +7,41 @@
 import numpy
 import os
 
+
+def text_file_ndim(filename):
+    """Number of dimensions recorded in the first line of a text data file
+    
+    Returns None if the file has no such record (files written by earlier
+    versions).
+    
+    """
+    try:
+        with open(filename) as fid:
+            first = fid.readline().split()
+    except (OSError, TypeError):
+        return None
+    if len(first) == 3 and first[0] == "#" and first[1] == "ndim":
+        return int(first[2])
+    return None
+
+
+def restore_ndim(data, ndim):
+    """Gives two-dimensional data read from a text file their recorded rank
+    
+    """
+    if ndim is None:
+        # no record: dimensions of length one are dropped as numpy.loadtxt 
+        # does by default
+        return numpy.squeeze(data)
+    if ndim == 2:
+        return data
+    if ndim == 1:
+        return data.reshape(-1)
+    if ndim == 0:
+        return data.reshape(())
+    raise Exception("Text files hold data of at most two dimensions")
+
+
 class MatrixData:
     """MatrixData type
 
@@ -192,14 +227,17 @@ class MatrixData:
         """Saves textual data to a file
 
         """
-        numpy.savetxt(file, self.data)
+        # a text file holds rows and columns: the number of dimensions of
+        # the data is written into a comment line and restored on loading
+        numpy.savetxt(file, self.data, header="ndim %d" % numpy.ndim(self.data))
 
     def _importDataFromText(self, filename):
         """Imports textual data to a file
 
         """        
         try:
-            self.data = numpy.loadtxt(filename)
+            data = numpy.loadtxt(filename, ndmin=2)
         except ValueError:
             # complex data are exported as (re+imj) strings
-            self.data = numpy.loadtxt(filename, dtype=complex)
+            data = numpy.loadtxt(filename, dtype=complex, ndmin=2)
+        self.data = restore_ndim(data, text_file_ndim(filename))
